@@ -7,13 +7,20 @@ The naming functions are parameters of the model; the harness fills them with th
 blanks); data are opaque tokens; contents are printed as `r:TOKEN` (handler output) wrapped in `z:` per
 compression layer.
 
-  fileset ID Z P                      -> ok     (Z = 1: names end in a compression suffix; P = 1: post_reader "P.")
+  fileset ID Z P WTAG RTAG            -> ok     (Z = 1: names end in a compression suffix; P = 1: post_reader "P.";
+                                                 WTAG / RTAG: the fileset's write_args / read_args, visible in what the
+                                                 handler writes ("W<tag>.") and returns ("R<tag>."))
   name ID KEY PATHHEX                 -> ok     (ID.nameOf KEY = PATH, ID.parse PATH = KEY)
-  write ID KEY DATA                   -> ok | no-name
-  read ID PATHHEX                     -> DATA | raise
+  alias ID KEY PATHHEX                -> ok     (ID.nameOf KEY = PATH only: the name the template generates from a key
+                                                 of another fileset, when it keeps less / other information)
+  write ID KEY DATA WTAG|-            -> ok | no-name       (WTAG: per-call write_args override)
+  read ID PATHHEX RTAG|-              -> DATA | raise       (RTAG: per-call read_args override)
   find ID QS QE                       -> PATHHEX:KEY ... (sorted) | -
-  move SRC DST COPY CONV QS QE        -> ok | raise    (CONV 0: plain, 1: convert=True, 2: convert=g, g d = "G." ++ d)
+  move SRC DST COPY CONV WT QS QE     -> ok | raise    (CONV 0: plain, 1: convert=True, 2: convert=g, g d = "G." ++ d;
+                                                        WT: write tag of the destination object, "-" = DST's own)
+  movefiles SRC DST COPY CONV WT PATHHEX*   -> ok | raise    (selection = explicit file list, possibly empty)
   delete ID DRY QS QE                 -> ok
+  deletefiles ID DRY PATHHEX*         -> ok
   ls                                  -> PATHHEX=CONTENT ... (sorted) | -
 -/
 open FsOps FSModel
@@ -31,7 +38,10 @@ structure FSet where
   id : String
   z : Bool
   post : Bool
-  names : List (String × String) := []     -- key ↦ path
+  wtag : String := "w0"
+  rtag : String := "r0"
+  names : List (String × String) := []     -- key ↦ path (also the parse table)
+  aliases : List (String × String) := []   -- foreign key ↦ path (nameOf only)
 
 structure St where
   sets : List FSet := []
@@ -39,10 +49,12 @@ structure St where
   paths : List String := []                 -- every path ever named (candidates of find / ls)
 
 def FSet.model (s : FSet) : FileSetM String String C where
-  nameOf k := match s.names.find? (·.1 == k) with | some e => e.2 | none => "?unnamed:" ++ s.id ++ ":" ++ k
+  nameOf k := match s.aliases.find? (·.1 == k) with
+    | some e => e.2
+    | none => match s.names.find? (·.1 == k) with | some e => e.2 | none => "?unnamed:" ++ s.id ++ ":" ++ k
   parse p := (s.names.find? (·.2 == p)).map (·.1)
-  hwrite d := .raw d
-  hread c := match c with | .raw d => some d | .gz _ => none
+  hwrite d := .raw ("W" ++ s.wtag ++ "." ++ d)
+  hread c := match c with | .raw d => some ("R" ++ s.rtag ++ "." ++ d) | .gz _ => none
   post d := if s.post then "P." ++ d else d
   enc c := if s.z then .gz c else c
   dec c := if s.z then (match c with | .gz c' => some c' | .raw _ => none) else some c
@@ -87,25 +99,44 @@ def unhexStr (s : String) : Option String := do
 
 def getSet (st : St) (id : String) : Option FSet := st.sets.find? (·.id == id)
 
+def convOf (cv : String) : Option (String → String) :=
+  if cv == "0" then none else if cv == "1" then some id else some (fun d => "G." ++ d)
+
+def selOfPaths (s : FSet) (st : St) (phs : List String) : Option (List (String × String)) :=
+  phs.mapM (fun ph => do
+    let p ← unhexStr ph
+    let k ← s.model.parse p
+    pure (p, k))
+
 def step (st : St) (line : String) : St × String :=
   match (line.splitOn " ").filter (· ≠ "") with
-  | ["fileset", id, z, p] =>
-    ({ st with sets := { id := id, z := z == "1", post := p == "1" } :: st.sets.filter (·.id != id) }, "ok")
+  | ["fileset", id, z, p, wt, rt] =>
+    ({ st with sets := { id := id, z := z == "1", post := p == "1", wtag := wt, rtag := rt } :: st.sets.filter (·.id != id) }, "ok")
   | ["name", id, key, ph] =>
     match getSet st id, unhexStr ph with
     | some s, some path =>
-      let s' := { s with names := (key, path) :: s.names.filter (fun e => e.1 != key) }
+      let s' := { s with names := (key, path) :: s.names.filter (fun e => e.1 != key && e.2 != path) }
       ({ st with sets := s' :: st.sets.filter (·.id != id), paths := insertSorted path st.paths }, "ok")
     | _, _ => (st, "bad-op")
-  | ["write", id, key, data] =>
+  | ["alias", id, key, ph] =>
+    match getSet st id, unhexStr ph with
+    | some s, some path =>
+      let s' := { s with aliases := (key, path) :: s.aliases.filter (fun e => e.1 != key) }
+      ({ st with sets := s' :: st.sets.filter (·.id != id), paths := insertSorted path st.paths }, "ok")
+    | _, _ => (st, "bad-op")
+  | ["write", id, key, data, wt] =>
     match getSet st id with
     | some s =>
       if (s.names.find? (·.1 == key)).isNone then (st, "no-name")
-      else ({ st with fs := write s.model st.fs key data }, "ok")
+      else
+        let s' := if wt == "-" then s else { s with wtag := wt }
+        ({ st with fs := write s'.model st.fs key data }, "ok")
     | none => (st, "bad-op")
-  | ["read", id, ph] =>
+  | ["read", id, ph, rt] =>
     match getSet st id, unhexStr ph with
-    | some s, some path => (st, match read s.model st.fs path with | some d => d | none => "raise")
+    | some s, some path =>
+      let s' := if rt == "-" then s else { s with rtag := rt }
+      (st, match read s'.model st.fs path with | some d => d | none => "raise")
     | _, _ => (st, "bad-op")
   | ["find", id, qs, qe] =>
     match getSet st id, qs.toInt?, qe.toInt? with
@@ -113,22 +144,39 @@ def step (st : St) (line : String) : St × String :=
       let r := findKeys s.model st.fs st.paths (overlapQ qs qe)
       (st, if r.isEmpty then "-" else " ".intercalate (r.map (fun f => hexStr f.1 ++ ":" ++ f.2)))
     | _, _, _ => (st, "bad-op")
-  | ["move", src, dst, cp, cv, qs, qe] =>
+  | ["move", src, dst, cp, cv, wt, qs, qe] =>
     match getSet st src, getSet st dst, qs.toInt?, qe.toInt? with
     | some s, some t, some qs, some qe =>
       let sel := findKeys s.model st.fs st.paths (overlapQ qs qe)
-      let conv : Option (String → String) :=
-        if cv == "0" then none else if cv == "1" then some id else some (fun d => "G." ++ d)
-      match moveAll s.model t.model (cp == "1") conv st.fs sel with
+      let t' := if wt == "-" then t else { t with wtag := wt }
+      match moveAll s.model t'.model (cp == "1") (convOf cv) st.fs sel with
       | some fs' => ({ st with fs := fs' }, "ok")
       | none => (st, "raise")
     | _, _, _, _ => (st, "bad-op")
+  | "movefiles" :: src :: dst :: cp :: cv :: wt :: phs =>
+    match getSet st src, getSet st dst with
+    | some s, some t =>
+      match selOfPaths s st phs with
+      | some sel =>
+        let t' := if wt == "-" then t else { t with wtag := wt }
+        match moveAll s.model t'.model (cp == "1") (convOf cv) st.fs sel with
+        | some fs' => ({ st with fs := fs' }, "ok")
+        | none => (st, "raise")
+      | none => (st, "bad-op")
+    | _, _ => (st, "bad-op")
   | ["delete", id, dry, qs, qe] =>
     match getSet st id, qs.toInt?, qe.toInt? with
     | some s, some qs, some qe =>
       let sel := findKeys s.model st.fs st.paths (overlapQ qs qe)
       ({ st with fs := deleteAll (dry == "1") st.fs (sel.map (·.1)) }, "ok")
     | _, _, _ => (st, "bad-op")
+  | "deletefiles" :: id :: dry :: phs =>
+    match getSet st id with
+    | some s =>
+      match selOfPaths s st phs with
+      | some sel => ({ st with fs := deleteAll (dry == "1") st.fs (sel.map (·.1)) }, "ok")
+      | none => (st, "bad-op")
+    | none => (st, "bad-op")
   | ["ls"] =>
     let r := st.paths.filterMap (fun p => (st.fs p).map (fun c => hexStr p ++ "=" ++ c.show))
     (st, if r.isEmpty then "-" else " ".intercalate r)
